@@ -73,6 +73,12 @@ CONSUMERS = [
     # documented: konst's rposition counts from the back = std's rev().position()
     ("rposition:p2", f"rposition({PREDS_VAL['p2']})", f".rev().position({PREDS_VAL['p2']})", True),
 ]
+PREDS_VAL["p9"] = "|x| x == 9"
+BIG_CONSUMERS = {c[0]: c for c in CONSUMERS}
+BIG_CONSUMERS["position:p9"] = ("position:p9", "position(|x| x == 9)", ".position(|x| x == 9)", False)
+BIG_CONSUMERS["rposition:p9"] = ("rposition:p9", "rposition(|x| x == 9)", ".rev().position(|x| x == 9)", True)
+for _n in (299, 65536, 70001):
+    BIG_CONSUMERS[f"nth:{_n}"] = (f"nth:{_n}", f"nth({_n})", f".nth({_n})", False)
 
 
 def std_caps(chain):
@@ -180,6 +186,31 @@ def inputs_small():
 
 CONST_INPUTS = [[], [1], [0, 1, 2, 3], [3, 1, 2, 0, 2]]
 
+# LARGE cases: counters of take/skip/enumerate/position/nth far beyond the small scopes
+# (chain tokens with konst/std text, consumer token, input as run-length spec [(value, count), ..])
+BIG = [
+    (["take:4294967296"], "forEach", [(1, 5), (2, 9)]),
+    (["take:12884901890"], "count", [(3, 14)]),
+    (["take:18446744073709551615"], "forEach", [(1, 3)]),
+    (["skip:4294967299"], "next", [(2, 14)]),
+    (["skip:4294967296", "take:3"], "forEach", [(2, 14)]),
+    (["skip:3", "take:4294967297"], "count", [(2, 300)]),
+    (["enumerate", "map:mp"], "forEach", [(1, 300)]),
+    (["enumerate", "filter:pp", "map:mp"], "count", [(2, 70000)]),
+    (["filter:p2", "enumerate", "map:mp"], "nth:299", [(3, 400)]),
+    ([], "position:p9", [(0, 65536), (9, 1)]),
+    ([], "position:p9", [(0, 70000)]),
+    ([], "rposition:p9", [(9, 1), (0, 69999)]),
+    (["map:m2"], "position:p9", [(0, 300), (12, 1), (0, 5)]),
+    ([], "nth:65536", [(0, 65536), (7, 1), (0, 3)]),
+    ([], "nth:70001", [(0, 70000)]),
+    ([], "count", [(1, 70000)]),
+    (["skip:65537"], "next", [(0, 65537), (5, 1)]),
+    (["take:65537"], "count", [(0, 70000)]),
+    (["flat_map:f1"], "count", [(1, 40000)]),
+    (["enumerate", "map:mp", "rev"], "next", [(1, 300)]),
+]
+
 
 def scope_of(toks, cons_tok, cons_rev):
     """returns (scope, has_std)"""
@@ -246,6 +277,32 @@ def generate(ctx):
                 body_s = f"let a: &[i64] = &[{arr}]; let v: Vec<i64> = a.iter().copied(){stext}.collect(); let _ = s; items(&v)" if std_ok else 'let _ = s; "?".to_string()'
                 inp_s = "[" + ";".join(map(str, inp)) + "]"
                 funcs.append((f"chain {desc} collect", body_k, body_s, (scope_of(toks, "collect", False) if std_ok else "m"), "CONST:" + inp_s))
+
+    # LARGE cases (hoisted counters far beyond the small scopes)
+    by_tok = {}
+    for a in ADS:
+        by_tok.setdefault(a[0], a)
+    def big_ad(tok):
+        if tok in by_tok:
+            return by_tok[tok]
+        name, n = tok.split(":")
+        return (tok, "I", "I", f"{name}({n})", f".{name}({n})")
+    for toks, ctok, spec in BIG:
+        c = [big_ad(x) for x in toks]
+        ktext = "".join(", " + a[3] for a in c)
+        stext = "".join(a[4] for a in c)
+        desc = ",".join(toks) if toks else "-"
+        build = "let mut v: Vec<i64> = Vec::new(); " + " ".join(f"v.extend(std::iter::repeat({val}i64).take({cnt}));" for val, cnt in spec)
+        inp_s = "[" + ";".join(f"{val}*{cnt}" for val, cnt in spec) + "]"
+        sc = scope_of(toks, ctok, BIG_CONSUMERS[ctok][3] if ctok in BIG_CONSUMERS else False)
+        if ctok == "forEach":
+            body_k = f"{build} let s: &[i64] = &v; let mut log: Vec<i64> = Vec::new(); konst::iter::for_each!{{x in s, copied(){ktext} => log.push(x);}} items(&log)"
+            body_s = f"{build} let s: &[i64] = &v; let mut log: Vec<i64> = Vec::new(); for x in s.iter().copied(){stext} {{ log.push(x); }} items(&log)"
+        else:
+            _, kt, st, rv = BIG_CONSUMERS[ctok]
+            body_k = f"{build} let s: &[i64] = &v; show(konst::iter::eval!(s, copied(){ktext}, {kt}))"
+            body_s = f"{build} let s: &[i64] = &v; show(s.iter().copied(){stext}{st})"
+        funcs.append((f"chain {desc} {ctok}", "let _ = s; " + body_k, "let _ = s; " + body_s, sc, "CONST:" + inp_s))
 
     # split into modules compiled in parallel
     nmod = 16
